@@ -1,7 +1,7 @@
 /-
   C42 — property theorems over XC.Model.C42 (known_hosts decisions).
 -/
-import XC.Model.C42
+import XC.Proofs.C42
 namespace XC.C42
 open XC
 
@@ -469,14 +469,16 @@ theorem wildcard_literal (p s : Bytes) (h : ∀ c ∈ p, c ≠ cSTAR ∧ c ≠ c
 theorem b64Val_b64Enc : ∀ v : Fin 64, b64Val (b64Enc v.val) = some v.val := by decide
 
 theorem b64Enc_ne : ∀ v : Fin 64, b64Enc v.val ≠ cEQ ∧ b64Enc v.val ≠ cCR ∧ b64Enc v.val ≠ cLF ∧
-    b64Enc v.val ≠ cPIPE := by decide
+    b64Enc v.val ≠ cPIPE ∧ b64Enc v.val ≠ cSP ∧ b64Enc v.val ≠ cTAB := by decide
 
 theorem b64Val_enc (v : Nat) (h : v < 64) : b64Val (b64Enc v) = some v := b64Val_b64Enc ⟨v, h⟩
 theorem b64Enc_ok (v : Nat) (h : v < 64) :
-    b64Enc v ≠ cEQ ∧ b64Enc v ≠ cCR ∧ b64Enc v ≠ cLF ∧ b64Enc v ≠ cPIPE := b64Enc_ne ⟨v, h⟩
+    b64Enc v ≠ cEQ ∧ b64Enc v ≠ cCR ∧ b64Enc v ≠ cLF ∧ b64Enc v ≠ cPIPE ∧ b64Enc v ≠ cSP ∧ b64Enc v ≠ cTAB :=
+  b64Enc_ne ⟨v, h⟩
 
 /-- characters of an encoding: never CR, LF or `|` -/
-theorem b64Encode_chars (x : Bytes) : ∀ c ∈ b64Encode x, c ≠ cCR ∧ c ≠ cLF ∧ c ≠ cPIPE := by
+theorem b64Encode_chars (x : Bytes) :
+    ∀ c ∈ b64Encode x, c ≠ cCR ∧ c ≠ cLF ∧ c ≠ cPIPE ∧ c ≠ cSP ∧ c ≠ cTAB := by
   fun_induction b64Encode x with
   | case1 => simp
   | case2 a =>
@@ -484,8 +486,8 @@ theorem b64Encode_chars (x : Bytes) : ∀ c ∈ b64Encode x, c ≠ cCR ∧ c ≠
     intro c hc
     simp only [List.mem_cons, List.mem_nil_iff, or_false] at hc
     rcases hc with rfl | rfl | rfl | rfl
-    · have := b64Enc_ok (a.toNat / 4) (by omega); exact ⟨this.2.1, this.2.2.1, this.2.2.2⟩
-    · have := b64Enc_ok (a.toNat % 4 * 16) (by omega); exact ⟨this.2.1, this.2.2.1, this.2.2.2⟩
+    · have := b64Enc_ok (a.toNat / 4) (by omega); exact this.2
+    · have := b64Enc_ok (a.toNat % 4 * 16) (by omega); exact this.2
     · decide
     · decide
   | case3 a b =>
@@ -494,9 +496,9 @@ theorem b64Encode_chars (x : Bytes) : ∀ c ∈ b64Encode x, c ≠ cCR ∧ c ≠
     intro c hc
     simp only [List.mem_cons, List.mem_nil_iff, or_false] at hc
     rcases hc with rfl | rfl | rfl | rfl
-    · have := b64Enc_ok (a.toNat / 4) (by omega); exact ⟨this.2.1, this.2.2.1, this.2.2.2⟩
-    · have := b64Enc_ok (a.toNat % 4 * 16 + b.toNat / 16) (by omega); exact ⟨this.2.1, this.2.2.1, this.2.2.2⟩
-    · have := b64Enc_ok (b.toNat % 16 * 4) (by omega); exact ⟨this.2.1, this.2.2.1, this.2.2.2⟩
+    · have := b64Enc_ok (a.toNat / 4) (by omega); exact this.2
+    · have := b64Enc_ok (a.toNat % 4 * 16 + b.toNat / 16) (by omega); exact this.2
+    · have := b64Enc_ok (b.toNat % 16 * 4) (by omega); exact this.2
     · decide
   | case4 a b c rest ih =>
     have ha := a.toNat_lt
@@ -505,11 +507,18 @@ theorem b64Encode_chars (x : Bytes) : ∀ c ∈ b64Encode x, c ≠ cCR ∧ c ≠
     intro x hx
     simp only [List.mem_cons] at hx
     rcases hx with rfl | rfl | rfl | rfl | hx
-    · have := b64Enc_ok (a.toNat / 4) (by omega); exact ⟨this.2.1, this.2.2.1, this.2.2.2⟩
-    · have := b64Enc_ok (a.toNat % 4 * 16 + b.toNat / 16) (by omega); exact ⟨this.2.1, this.2.2.1, this.2.2.2⟩
-    · have := b64Enc_ok (b.toNat % 16 * 4 + c.toNat / 64) (by omega); exact ⟨this.2.1, this.2.2.1, this.2.2.2⟩
-    · have := b64Enc_ok (c.toNat % 64) (by omega); exact ⟨this.2.1, this.2.2.1, this.2.2.2⟩
+    · have := b64Enc_ok (a.toNat / 4) (by omega); exact this.2
+    · have := b64Enc_ok (a.toNat % 4 * 16 + b.toNat / 16) (by omega); exact this.2
+    · have := b64Enc_ok (b.toNat % 16 * 4 + c.toNat / 64) (by omega); exact this.2
+    · have := b64Enc_ok (c.toNat % 64) (by omega); exact this.2
     · exact ih x hx
+
+/-- no byte of an encoding is a blank, CR or LF -/
+theorem b64Encode_alphabet (x : Bytes) (c : UInt8) (hc : c ∈ b64Encode x) :
+    isSpTab c = false ∧ c ≠ cCR ∧ c ≠ cLF := by
+  have h3 := b64Encode_chars x c hc
+  refine ⟨?_, h3.1, h3.2.1⟩
+  simp [isSpTab, h3.2.2.2.1, h3.2.2.2.2]
 
 theorem ofNat_toNat_u8 (a : UInt8) : UInt8.ofNat a.toNat = a := by simp
 
@@ -565,21 +574,6 @@ theorem b64_roundtrip (x : Bytes) : b64Decode (b64Encode x) = some x := by
     simp [this.1, this.2.1]
   rw [this, b64DecodeCore_encode]
 
-theorem splitBy_nosep (sep : UInt8) (a : Bytes) (h : ∀ c ∈ a, c ≠ sep) : splitBy sep a = [a] := by
-  induction a with
-  | nil => rfl
-  | cons c cs ih =>
-    have hc : (c == sep) = false := by simpa using h c (by simp)
-    simp [splitBy, hc, ih (fun x hx => h x (List.mem_cons_of_mem _ hx))]
-
-theorem splitBy_append_sep (sep : UInt8) (a rest : Bytes) (h : ∀ c ∈ a, c ≠ sep) :
-    splitBy sep (a ++ sep :: rest) = a :: splitBy sep rest := by
-  induction a with
-  | nil => simp [splitBy]
-  | cons c cs ih =>
-    have hc : (c == sep) = false := by simpa using h c (by simp)
-    simp [splitBy, hc, ih (fun x hx => h x (List.mem_cons_of_mem _ hx))]
-
 /-- **hash_matches**: the entry written by `HashHostname(host)` (any salt) parses as a hashed matcher,
     and that matcher accepts an address iff HMAC-SHA1(salt, Normalize(addr)) = HMAC-SHA1(salt, host) —
     in particular it accepts every address whose normal form is `host`. -/
@@ -595,7 +589,7 @@ theorem hash_matches (salt host : Bytes) :
     rw [show cPIPE :: ([49] ++ cPIPE :: (b64Encode salt ++ cPIPE :: b64Encode (hashHost host salt)))
         = [] ++ cPIPE :: ([49] ++ cPIPE :: (b64Encode salt ++ cPIPE :: b64Encode (hashHost host salt))) by rfl]
     rw [splitBy_append_sep _ _ _ (by simp), splitBy_append_sep _ _ _ (by decide),
-      splitBy_append_sep _ _ _ (fun c hc => (hs c hc).2.2), splitBy_nosep _ _ (fun c hc => (hh c hc).2.2)]
+      splitBy_append_sep _ _ _ (fun c hc => (hs c hc).2.2.1), splitBy_nosep _ _ (fun c hc => (hh c hc).2.2.1)]
   have hhead : (hashHostname salt host).head? = some cPIPE := by
     simp [hashHostname, encodeHash, joinBy]
   refine ⟨.hashed salt (hashHost host salt), ?_, ?_, ?_⟩
@@ -604,18 +598,347 @@ theorem hash_matches (salt host : Bytes) :
   · intro a ha
     simp [Matcher.matches, ha]
 
-/-- the full statement about `Line` (kept visible; covered differentially by the `lq` ops, not proved):
-    for addresses made of host/port characters, the line written by `Line` parses and its matcher accepts
-    every one of the addresses with the key it lists. -/
-def line_matches_own_host_full : Prop :=
-  ∀ (kt : KeyTab) (addrs : List Bytes) (ktype blob : Bytes) (id : Nat) (now : Int) (remote : Bytes),
-    kt.lookup blob = some (ktype, id) →
-    (∀ a ∈ addrs, ∃ h p, splitHostPort a = some (h, p) ∧ h ≠ [] ∧
-      ∀ c ∈ h ++ p, c ≠ cSP ∧ c ≠ cTAB ∧ c ≠ cCOMMA ∧ c ≠ cBANG ∧ c ≠ cSTAR ∧ c ≠ cQM ∧ c ≠ cLB ∧ c ≠ cRB ∧
-        c ≠ cAT ∧ c ≠ cHASH ∧ c ≠ cPIPE ∧ c ≠ cLF ∧ c ≠ cCR) →
-    (∀ c ∈ ktype, c ≠ cSP ∧ c ≠ cTAB) → ktype ≠ [] → addrs ≠ [] →
-    (splitHostPort remote).isSome →
-    ∃ db, readDB kt (knownHostsLine addrs ktype blob) = .ok db ∧
-      ∀ a ∈ addrs, db.checkHostKey now a remote (.plain id) = .ok
+/-! ## 5. the tokenizer and `Line` -/
+
+theorem trimmed_ends (a m c : Bytes) (ha : NoBlank a) (hane : a ≠ []) (hc : NoBlank c) (hcne : c ≠ []) :
+    Trimmed (a ++ m ++ c) := by
+  constructor
+  · intro x t e
+    cases a with
+    | nil => exact absurd rfl hane
+    | cons y a' => simp at e; rw [← e.1]; exact ha y (by simp)
+  · intro t y e
+    obtain ⟨c', z, rfl⟩ : ∃ c' z, c = c' ++ [z] := by
+      cases h : c.reverse with
+      | nil => exact absurd (by simpa using h) hcne
+      | cons z r =>
+        refine ⟨r.reverse, z, ?_⟩
+        have := congrArg List.reverse h
+        simpa using this
+    have : a ++ m ++ (c' ++ [z]) = (a ++ m ++ c') ++ [z] := by simp
+    rw [this] at e
+    have := List.append_inj_right' e rfl
+    simp at this
+    rw [← this]; exact hc z (by simp)
+
+/-- **tokenizer spec** (`parseLine`): a line `host WS type WS key` — three blank-free non-empty words
+    separated by non-empty runs of space/tab, where `host` is not a marker and does not start with `@` —
+    yields exactly those fields; the key word is base64-decoded and looked up, and its type must equal the
+    type word.  (`marker WS host WS type WS key` is the same with the marker recorded.) -/
+theorem parseFields_spec (kt : KeyTab) (host b1 typ b2 key : Bytes)
+    (hh : NoBlank host) (hhne : host ≠ []) (ht : NoBlank typ) (htne : typ ≠ []) (hk : NoBlank key)
+    (hkne : key ≠ []) (hb1 : AllBlank b1) (hb1ne : b1 ≠ []) (hb2 : AllBlank b2) (hb2ne : b2 ≠ [])
+    (hm1 : host ≠ markerCert) (hm2 : host ≠ markerRevoked) (hat : host.head? ≠ some cAT) :
+    parseFields kt (host ++ b1 ++ (typ ++ b2 ++ key)) =
+      match b64Decode key with
+      | none => none
+      | some blob =>
+        match kt.lookup blob with
+        | none => none
+        | some (t, id) => if t != typ then none else some (.none, host, id) := by
+  have htr := trimmed_ends typ b2 key ht htne hk hkne
+  have h1 := nextWord_spec host b1 (typ ++ b2 ++ key) hh hb1 hb1ne htr
+  have h2 := nextWord_spec typ b2 key ht hb2 hb2ne (trimmed_of_noBlank key hk)
+  have h3 := nextWord_last key hk
+  have e1 : (host == markerCert) = false := by simpa using hm1
+  have e2 : (host == markerRevoked) = false := by simpa using hm2
+  have e3 : (host.head? == some cAT) = false := by simpa using hat
+  have e4 : (typ ++ b2 ++ key).isEmpty = false := by
+    cases typ with
+    | nil => exact absurd rfl htne
+    | cons x t => rfl
+  have e5 : key.isEmpty = false := by
+    cases key with
+    | nil => exact absurd rfl hkne
+    | cons x t => rfl
+  simp only [parseFields, h1, e1, e2, Bool.false_eq_true, if_false, e3, e4, h2, e5, h3]
+  cases b64Decode key with
+  | none => rfl
+  | some blob =>
+    cases List.lookup blob kt with
+    | none => rfl
+    | some ti => obtain ⟨t, i⟩ := ti; rfl
+
+theorem parseFields_spec_marker (kt : KeyTab) (host b0 b1 typ b2 key : Bytes)
+    (hh : NoBlank host) (hhne : host ≠ []) (ht : NoBlank typ) (htne : typ ≠ []) (hk : NoBlank key)
+    (hkne : key ≠ []) (hb0 : AllBlank b0) (hb0ne : b0 ≠ []) (hb1 : AllBlank b1) (hb1ne : b1 ≠ [])
+    (hb2 : AllBlank b2) (hb2ne : b2 ≠ []) (hat : host.head? ≠ some cAT) :
+    parseFields kt (markerCert ++ b0 ++ (host ++ b1 ++ (typ ++ b2 ++ key))) =
+      match b64Decode key with
+      | none => none
+      | some blob =>
+        match kt.lookup blob with
+        | none => none
+        | some (t, id) => if t != typ then none else some (.cert, host, id) := by
+  have htr := trimmed_ends typ b2 key ht htne hk hkne
+  have htr0 : Trimmed (host ++ b1 ++ (typ ++ b2 ++ key)) := by
+    have := trimmed_ends host (b1 ++ typ ++ b2) key hh hhne hk hkne
+    simpa [List.append_assoc] using this
+  have hmc : NoBlank markerCert := by intro c hc; revert c; decide
+  have h0 := nextWord_spec markerCert b0 _ hmc hb0 hb0ne htr0
+  have h1 := nextWord_spec host b1 (typ ++ b2 ++ key) hh hb1 hb1ne htr
+  have h2 := nextWord_spec typ b2 key ht hb2 hb2ne (trimmed_of_noBlank key hk)
+  have h3 := nextWord_last key hk
+  have e3 : (host.head? == some cAT) = false := by simpa using hat
+  have e4 : (typ ++ b2 ++ key).isEmpty = false := by
+    cases typ with
+    | nil => exact absurd rfl htne
+    | cons x t => rfl
+  have e5 : key.isEmpty = false := by
+    cases key with
+    | nil => exact absurd rfl hkne
+    | cons x t => rfl
+  simp only [parseFields, h0, beq_self_eq_true, if_true, h1, e3, Bool.false_eq_true, if_false, e4, h2, e5, h3]
+  cases b64Decode key with
+  | none => rfl
+  | some blob =>
+    cases List.lookup blob kt with
+    | none => rfl
+    | some ti => obtain ⟨t, i⟩ := ti; rfl
+
+/-- bytes that may appear in the host and port of an address given to `Line` for the theorem below;
+    the excluded bytes are exactly those with a meaning in known_hosts syntax -/
+def Safe (w : Bytes) : Prop :=
+  ∀ c ∈ w, c ≠ cCOLON ∧ c ≠ cLB ∧ c ≠ cRB ∧ c ≠ cSP ∧ c ≠ cTAB ∧ c ≠ cCOMMA ∧ c ≠ cBANG ∧ c ≠ cSTAR ∧
+    c ≠ cQM ∧ c ≠ cAT ∧ c ≠ cHASH ∧ c ≠ cPIPE ∧ c ≠ cLF ∧ c ≠ cCR
+
+theorem Safe.hostChars {w : Bytes} (h : Safe w) : HostChars w :=
+  fun c hc => ⟨(h c hc).1, (h c hc).2.1, (h c hc).2.2.1⟩
+
+/-- the address `host:port` -/
+def mkAddr (hp : Bytes × Bytes) : Bytes := hp.1 ++ cCOLON :: hp.2
+
+/-- `Normalize("h:p")` -/
+theorem normalize_mkAddr (h p : Bytes) (hh : Safe h) (hp : Safe p) :
+    normalize (mkAddr (h, p)) = if p == port22 then h else cLB :: h ++ cRB :: cCOLON :: p := by
+  have hs := splitHostPort_plain h p hh.hostChars hp.hostChars
+  have hsb : stripBrackets h = h := by
+    unfold stripBrackets
+    have : (h.head? == some cLB) = false := by
+      cases h with
+      | nil => rfl
+      | cons x t => simpa using (hh x (by simp)).2.1
+    simp [this]
+  simp only [normalize, mkAddr, hs, hsb]
+
+/-- every byte of a normalized address is a safe byte or one of `[ ] :` -/
+theorem normalize_chars (h p : Bytes) (hh : Safe h) (hp : Safe p) (c : UInt8)
+    (hc : c ∈ normalize (mkAddr (h, p))) :
+    c ≠ cSP ∧ c ≠ cTAB ∧ c ≠ cCOMMA ∧ c ≠ cAT ∧ c ≠ cLF ∧ c ≠ cCR := by
+  rw [normalize_mkAddr h p hh hp] at hc
+  have safe6 : ∀ w : Bytes, Safe w → ∀ x ∈ w, x ≠ cSP ∧ x ≠ cTAB ∧ x ≠ cCOMMA ∧ x ≠ cAT ∧ x ≠ cLF ∧ x ≠ cCR :=
+    fun w hw x hx => ⟨(hw x hx).2.2.2.1, (hw x hx).2.2.2.2.1, (hw x hx).2.2.2.2.2.1,
+      (hw x hx).2.2.2.2.2.2.2.2.2.1, (hw x hx).2.2.2.2.2.2.2.2.2.2.2.2.1, (hw x hx).2.2.2.2.2.2.2.2.2.2.2.2.2⟩
+  split at hc
+  · exact safe6 h hh c hc
+  · simp only [List.cons_append, List.mem_cons, List.mem_append] at hc
+    rcases hc with rfl | hc | rfl | rfl | hc
+    · decide
+    · exact safe6 h hh c hc
+    · decide
+    · decide
+    · exact safe6 p hp c hc
+
+/-- the pattern element written for `h:p` parses back to host `h`, port `p`, not negated -/
+theorem parseHostPattern_normalize (h p : Bytes) (hh : Safe h) (hhne : h ≠ []) (hp : Safe p) :
+    parseHostPattern (normalize (mkAddr (h, p))) = some (some ⟨false, ⟨h, p⟩⟩) := by
+  rw [normalize_mkAddr h p hh hp]
+  by_cases h22 : p = port22
+  · subst h22
+    simp only [beq_self_eq_true, if_true]
+    cases h with
+    | nil => exact absurd rfl hhne
+    | cons x t =>
+      have hx := hh x (by simp)
+      have e1 : (x == cBANG) = false := by simpa using hx.2.2.2.2.2.2.1
+      have e2 : (x == cLB) = false := by simpa using hx.2.1
+      have hn := splitHostPort_nocolon (x :: t) (fun c hc => (hh c hc).1)
+      simp only [parseHostPattern, e1, Bool.false_eq_true, if_false, hn, e2]
+  · have hb : (p == port22) = false := by simpa using h22
+    have hs := splitHostPort_bracket h p hh.hostChars hp.hostChars
+    simp only [hb, Bool.false_eq_true, if_false, List.cons_append, parseHostPattern,
+      show (cLB == cBANG) = false by decide, hs]
+
+theorem collectPatterns_normalize (hps : List (Bytes × Bytes))
+    (hw : ∀ hp ∈ hps, Safe hp.1 ∧ hp.1 ≠ [] ∧ Safe hp.2) :
+    collectPatterns (hps.map fun hp => normalize (mkAddr hp)) =
+      some (hps.map fun hp => ⟨false, ⟨hp.1, hp.2⟩⟩) := by
+  induction hps with
+  | nil => rfl
+  | cons hp rest ih =>
+    obtain ⟨h1, h2, h3⟩ := hw hp (by simp)
+    have := parseHostPattern_normalize hp.1 hp.2 h1 h2 h3
+    simp only [List.map_cons, collectPatterns, this, ih (fun x hx => hw x (List.mem_cons_of_mem _ hx))]
+    rfl
+
+theorem normalize_ne_nil (h p : Bytes) (hh : Safe h) (hhne : h ≠ []) (hp : Safe p) :
+    ∃ x t, normalize (mkAddr (h, p)) = x :: t ∧ x ≠ cAT ∧ x ≠ cPIPE ∧ x ≠ cHASH := by
+  rw [normalize_mkAddr h p hh hp]
+  split
+  · cases h with
+    | nil => exact absurd rfl hhne
+    | cons x t =>
+      have hx := hh x (by simp)
+      exact ⟨x, t, rfl, hx.2.2.2.2.2.2.2.2.2.1, hx.2.2.2.2.2.2.2.2.2.2.2.1, hx.2.2.2.2.2.2.2.2.2.2.1⟩
+  · exact ⟨cLB, _, rfl, by decide, by decide, by decide⟩
+
+/-- **line_matches_own_host**: for every non-empty list of addresses `host:port` whose host (non-empty)
+    and port consist of bytes without known_hosts meaning (`Safe`: no `: [ ] , ! * ? @ # |`, blank, CR, LF)
+    and every key (type word without blanks, non-empty blob known to the key oracle), the line written by
+    `Line(addresses, key)` parses as one entry, and the callback accepts that key for EACH of the addresses
+    (whatever well-formed remote address). -/
+theorem line_matches_own_host (kt : KeyTab) (hps : List (Bytes × Bytes)) (ktype blob : Bytes) (id : Nat)
+    (now : Int) (remote : Bytes)
+    (hne : hps ≠ []) (hw : ∀ hp ∈ hps, Safe hp.1 ∧ hp.1 ≠ [] ∧ Safe hp.2)
+    (hkt : kt.lookup blob = some (ktype, id)) (htb : NoBlank ktype) (htne : ktype ≠ [])
+    (htlf : ∀ c ∈ ktype, c ≠ cLF ∧ c ≠ cCR) (hblob : blob ≠ [])
+    (hrem : (splitHostPort remote).isSome = true) :
+    ∃ db, readDB kt (knownHostsLine (hps.map mkAddr) ktype blob) = .ok db ∧
+      ∀ hp ∈ hps, db.checkHostKey now (mkAddr hp) remote (.plain id) = .ok := by
+  -- the three words of the line
+  let parts := hps.map fun hp => normalize (mkAddr hp)
+  let hosts := joinBy cCOMMA parts
+  let key := b64Encode blob
+  have hparts : (hps.map mkAddr).map normalize = parts := by simp [parts, List.map_map, Function.comp_def]
+  have hpartsne : parts ≠ [] := by simpa [parts] using hne
+  have hchars : ∀ c ∈ hosts, c ≠ cSP ∧ c ≠ cTAB ∧ c ≠ cAT ∧ c ≠ cLF ∧ c ≠ cCR := by
+    intro c hc
+    rcases mem_joinBy cCOMMA parts c hc with rfl | ⟨q, hq, hcq⟩
+    · decide
+    · obtain ⟨hp, hhp, rfl⟩ := List.mem_map.1 hq
+      obtain ⟨h1, h2, h3⟩ := hw hp hhp
+      have := normalize_chars hp.1 hp.2 h1 h3 c hcq
+      exact ⟨this.1, this.2.1, this.2.2.2.1, this.2.2.2.2.1, this.2.2.2.2.2⟩
+  have hhostsNB : NoBlank hosts := by
+    intro c hc
+    have := hchars c hc
+    simp [isSpTab, this.1, this.2.1]
+  obtain ⟨hp0, rest0, hhps⟩ : ∃ hp0 rest0, hps = hp0 :: rest0 := by
+    cases hps with
+    | nil => exact absurd rfl hne
+    | cons a t => exact ⟨a, t, rfl⟩
+  obtain ⟨x0, t0, hx0, hx0at, hx0pipe, hx0hash⟩ :=
+    normalize_ne_nil hp0.1 hp0.2 (hw hp0 (by simp [hhps])).1 (hw hp0 (by simp [hhps])).2.1
+      (hw hp0 (by simp [hhps])).2.2
+  have hhead : hosts.head? = some x0 := by
+    have : parts = normalize (mkAddr hp0) :: rest0.map (fun hp => normalize (mkAddr hp)) := by
+      simp [parts, hhps]
+    show (joinBy cCOMMA parts).head? = some x0
+    rw [this]; exact joinBy_head cCOMMA _ _ x0 t0 hx0
+  have hhostsne : hosts ≠ [] := by
+    intro h; rw [h] at hhead; cases hhead
+  have hkeyNB : NoBlank key := by
+    intro c hc
+    have hcv := b64Encode_alphabet blob c hc
+    exact hcv.1
+  have hkeyne : key ≠ [] := by
+    cases blob with
+    | nil => exact absurd rfl hblob
+    | cons a t =>
+      cases t with
+      | nil => simp [key, b64Encode]
+      | cons b t2 => cases t2 <;> simp [key, b64Encode]
+  have hm1 : hosts ≠ markerCert := by
+    intro h; rw [h] at hhead
+    have : x0 = 64 := by simpa [markerCert] using hhead.symm
+    exact hx0at this
+  have hm2 : hosts ≠ markerRevoked := by
+    intro h; rw [h] at hhead
+    have : x0 = 64 := by simpa [markerRevoked] using hhead.symm
+    exact hx0at this
+  have hat : hosts.head? ≠ some cAT := by
+    rw [hhead]; intro h; exact hx0at (by simpa using h)
+  -- the line and its tokenization
+  have hline : knownHostsLine (hps.map mkAddr) ktype blob = hosts ++ [cSP] ++ (ktype ++ [cSP] ++ key) := by
+    simp [knownHostsLine, hparts, hosts, key]
+  have hblank : AllBlank [cSP] := by intro c hc; simp at hc; subst hc; decide
+  have hpf := parseFields_spec kt hosts [cSP] ktype [cSP] key hhostsNB hhostsne htb htne hkeyNB hkeyne
+    hblank (by simp) hblank (by simp) hm1 hm2 hat
+  rw [show b64Decode key = some blob from b64_roundtrip blob] at hpf
+  simp only [hkt, bne_self_eq_false, Bool.false_eq_true, if_false] at hpf
+  -- the file is that single line
+  have hnolf : ∀ c ∈ hosts ++ [cSP] ++ (ktype ++ [cSP] ++ key), c ≠ cLF ∧ c ≠ cCR := by
+    intro c hc
+    simp only [List.mem_append, List.mem_singleton] at hc
+    rcases hc with (hc | rfl) | ((hc | rfl) | hc)
+    · exact ⟨(hchars c hc).2.2.2.1, (hchars c hc).2.2.2.2⟩
+    · decide
+    · exact htlf c hc
+    · decide
+    · have := b64Encode_alphabet blob c hc; exact ⟨this.2.2, this.2.1⟩
+  have htrim : Trimmed (hosts ++ [cSP] ++ (ktype ++ [cSP] ++ key)) := by
+    have := trimmed_ends hosts ([cSP] ++ ktype ++ [cSP]) key hhostsNB hhostsne hkeyNB hkeyne
+    simpa [List.append_assoc] using this
+  have hscan : scanLines (hosts ++ [cSP] ++ (ktype ++ [cSP] ++ key)) = [hosts ++ [cSP] ++ (ktype ++ [cSP] ++ key)] := by
+    unfold scanLines
+    rw [splitBy_nosep cLF _ (fun c hc => (hnolf c hc).1)]
+    simp only [List.map_cons, List.map_nil, List.cons.injEq, and_true]
+    unfold dropCR
+    cases hrev : (hosts ++ [cSP] ++ (ktype ++ [cSP] ++ key)).reverse with
+    | nil => rfl
+    | cons y r =>
+      have hy : y ∈ hosts ++ [cSP] ++ (ktype ++ [cSP] ++ key) := by
+        rw [← List.mem_reverse, hrev]; simp
+      have : (y == cCR) = false := by simpa using (hnolf y hy).2
+      simp [this]
+  have htrimeq : trimSpace (hosts ++ [cSP] ++ (ktype ++ [cSP] ++ key)) = hosts ++ [cSP] ++ (ktype ++ [cSP] ++ key) := by
+    have := trimSpace_spec [] _ [] (by intro c hc; cases hc) (by intro c hc; cases hc) htrim
+    simpa using this
+  have hlhead : (hosts ++ [cSP] ++ (ktype ++ [cSP] ++ key)).head? = some x0 := by
+    cases hh : hosts with
+    | nil => exact absurd hh hhostsne
+    | cons a t => rw [hh] at hhead; simpa using hhead
+  have hmatcher : newHostnameMatcher hosts = some (.pats (hps.map fun hp => ⟨false, ⟨hp.1, hp.2⟩⟩)) := by
+    unfold newHostnameMatcher
+    show Option.map Matcher.pats (collectPatterns (splitBy cCOMMA (joinBy cCOMMA parts))) = _
+    rw [splitBy_joinBy cCOMMA parts hpartsne (by
+      intro q hq c hc
+      obtain ⟨hp, hhp, rfl⟩ := List.mem_map.1 hq
+      obtain ⟨h1, h2, h3⟩ := hw hp hhp
+      exact (normalize_chars hp.1 hp.2 h1 h3 c hc).2.2.1)]
+    rw [collectPatterns_normalize hps hw]; rfl
+  let entry : Entry := ⟨1, false, .pats (hps.map fun hp => ⟨false, ⟨hp.1, hp.2⟩⟩), id⟩
+  have hread : readDB kt (knownHostsLine (hps.map mkAddr) ktype blob) = .ok ⟨[], [entry]⟩ := by
+    have hne' : (hosts ++ [cSP] ++ (ktype ++ [cSP] ++ key)).isEmpty = false := by
+      cases hh : hosts with
+      | nil => exact absurd hh hhostsne
+      | cons a t => rfl
+    have hhash : ((hosts ++ [cSP] ++ (ktype ++ [cSP] ++ key)).head? == some cHASH) = false := by
+      rw [hlhead]; simpa using hx0hash
+    have hpipe : (hosts.head? == some cPIPE) = false := by
+      rw [hhead]; simpa using hx0pipe
+    rw [hline]
+    simp only [readDB, hscan, readLines, htrimeq, hne', hhash, Bool.or_self, Bool.false_eq_true, if_false,
+      DB.addLine, hpf, hpipe, hmatcher, DB.empty]
+    rfl
+  refine ⟨_, hread, ?_⟩
+  intro hp hhp
+  obtain ⟨h1, h2, h3⟩ := hw hp hhp
+  have hsplit := splitHostPort_plain hp.1 hp.2 h1.hostChars h3.hostChars
+  obtain ⟨rhp, hrhp⟩ := Option.isSome_iff_exists.1 hrem
+  have haddrne : (mkAddr hp).isEmpty = false := by
+    unfold mkAddr
+    cases hh : hp.1 with
+    | nil => exact absurd hh h2
+    | cons a t => rfl
+  have hmatch : entry.matcher.matches ⟨hp.1, hp.2⟩ = true := by
+    rw [show entry.matcher = .pats (hps.map fun hp => ⟨false, ⟨hp.1, hp.2⟩⟩) from rfl, negation_semantics]
+    refine ⟨⟨⟨false, ⟨hp.1, hp.2⟩⟩, List.mem_map.2 ⟨hp, hhp, rfl⟩, rfl, ?_⟩, ?_⟩
+    · have hlit := (wildcard_literal hp.1 hp.1 (fun c hc => ⟨(h1 c hc).2.2.2.2.2.2.2.1, (h1 c hc).2.2.2.2.2.2.2.2.1⟩)).2 rfl
+      simp [HostPattern.matches, hlit]
+    · intro q hq hneg
+      obtain ⟨x, _, rfl⟩ := List.mem_map.1 hq
+      cases hneg
+  rw [decision]
+  refine ⟨by simp, ⟨hp.1, hp.2⟩, ?_, entry, by simp, hmatch, rfl⟩
+  unfold effectiveAddr
+  obtain ⟨rh, rp⟩ := rhp
+  simp only [hrhp, haddrne, Bool.false_eq_true, if_false]
+  show Option.map _ (splitHostPort (mkAddr hp)) = _
+  unfold mkAddr
+  rw [hsplit]; rfl
+
+example : Safe [104, 111, 115, 116] ∧ Safe [50, 50, 50, 50] := by
+  constructor <;> (intro c hc; revert c; decide)
 
 end XC.C42
